@@ -72,7 +72,7 @@ pub fn settings_from(f: &[&str]) -> Settings {
 fn with_watchdog<F: FnOnce() -> String + Send + 'static>(f: F, ms: u64) -> String {
     let (tx, rx) = mpsc::channel();
     let h = std::thread::Builder::new()
-        .stack_size(256 << 20)
+        .stack_size(64 << 20)
         .spawn(move || {
             let r = std::panic::catch_unwind(std::panic::AssertUnwindSafe(f));
             let _ = tx.send(match r {
@@ -114,7 +114,15 @@ fn err_class(e: &rustemo_compiler::Error) -> String {
 fn main() {
     let args: Vec<String> = std::env::args().collect();
     let jobs = std::fs::File::open(&args[1]).expect("jobs file");
-    let mut out = std::io::BufWriter::new(std::fs::File::create(&args[2]).expect("out file"));
+    // `vdyn jobs out [resume-index]`: after a hung parse the process re-executes itself (which
+    // kills the abandoned, spinning parse thread) and resumes after the hung grammar's jobs.
+    let resume: usize = args.get(3).map(|s| s.parse().unwrap()).unwrap_or(0);
+    let mut out = std::io::BufWriter::new(if resume > 0 {
+        std::fs::OpenOptions::new().append(true).open(&args[2]).expect("out file")
+    } else {
+        std::fs::File::create(&args[2]).expect("out file")
+    });
+    let mut skipping = resume > 0;
     std::panic::set_hook(Box::new(|info| {
         let msg = format!("{info}");
         *LAST_PANIC.lock().unwrap() = msg;
@@ -122,7 +130,18 @@ fn main() {
     let mut loaded = false;
     for (no, line) in std::io::BufReader::new(jobs).lines().enumerate() {
         let line = line.unwrap();
+        if no < resume {
+            continue;
+        }
         let f: Vec<&str> = line.split(' ').collect();
+        if skipping {
+            if f[0] == "G" {
+                skipping = false;
+            } else {
+                writeln!(out, "{no} skipped-after-hang").unwrap();
+                continue;
+            }
+        }
         let ans = match f[0] {
             "G" => {
                 let owned: Vec<String> = f[1..].iter().map(|s| s.to_string()).collect();
@@ -182,6 +201,17 @@ fn main() {
             _ => "unknown-job".to_string(),
         };
         writeln!(out, "{no} {ans}").unwrap();
+        if ans.contains("timeout") && (ans.starts_with("parse timeout") || ans.starts_with("dump timeout")) {
+            out.flush().unwrap();
+            drop(out);
+            use std::os::unix::process::CommandExt;
+            let e = std::process::Command::new(std::env::current_exe().unwrap())
+                .arg(&args[1])
+                .arg(&args[2])
+                .arg(format!("{}", no + 1))
+                .exec();
+            panic!("exec failed: {e}");
+        }
     }
     out.flush().unwrap();
     // abandoned (hung) parse threads must not keep the process alive
